@@ -11,8 +11,11 @@ the goroutine blocks or returns); the driver expands a macro step into the model
 * `R<h>` — `chFromID` → `ch` | `drop`
 * `S<h>` — the send on the channel (buffer 1); a waiting acceptor then receives and returns →
   `sent:conn:<h>` | `sent:lost` (the channel's acceptor has already returned) | `full`
-* `SX<h>` — the send, and the acceptor's context cancelled right behind it: the `select` may take either
-  case; both leave the same registrations → `sent:either` (or as `S<h>` when no acceptor is waiting)
+* `SXc<h>` / `SXx<h>` — the send, and the acceptor's context cancelled right behind it: the `select` may take
+  either case; the harness names the case the implementation took (`c`: the connection, `x`: the
+  cancellation) and the model takes the same one → `sent:conn:<h>` / `sent:cancelled` (or as `S<h>` when no
+  acceptor is waiting).  The registrations end up the same, the channel's buffer does not (a second sender
+  holding the channel finds it empty / full).
 * `T<h>` — the sender's 5 s context expires → `drop` | `-`
 * `W<a>` — the acceptor is given time to run → `blocked` | `conn:<h>` | `-`
 * `X<a>` — `ctx.Done()` → `cancelled` | `-`
@@ -27,13 +30,14 @@ inductive MOp
   | verify (h : Nat)
   | route (h : Nat)
   | send (h : Nat)
-  | sendCancel (h : Nat)
+  | sendCancel (connWins : Bool) (h : Nat)
   | timeout (h : Nat)
   | wait (a : Nat)
   | cancel (a : Nat)
 
 def parseMOp (s : String) : Option MOp :=
-  if s.startsWith "SX" then (s.drop 2).toString.toNat?.map .sendCancel else
+  if s.startsWith "SXc" then (s.drop 3).toString.toNat?.map (.sendCancel true) else
+  if s.startsWith "SXx" then (s.drop 3).toString.toNat?.map (.sendCancel false) else
   let body := (s.drop 1).toString
   match (s.take 1).toString, body.splitOn ":" with
   | "A", [a, id] => do some (.acc (← a.toNat?) (← id.toNat?))
@@ -101,7 +105,7 @@ def macroStep (s : St) : MOp → St × String
          | _ => (s', "sent:lost"))
       | _ => (s', "full")
     | _ => (s, "-")
-  | .sendCancel h =>
+  | .sendCancel connWins h =>
     match s.hs h with
     | some ⟨_, _, .send _⟩ =>
       let s' := step s (.hsStep h)
@@ -109,11 +113,11 @@ def macroStep (s : St) : MOp → St × String
       | some ⟨_, _, .delivered ch⟩ =>
         (match s'.apc ch with
          | some .waiting =>
-           -- the model takes the cancel branch; the receive branch ends in the same maps (see
-           -- `CJ.Props.C16.select_either_way_frees`)
-           let s'' := accRun (step s' (.accCancel ch)) ch
+           -- both cases of the `select` are ready: the branch the implementation took
+           let s'' := if connWins then step (accRun s' ch) (.accCancel ch) else accRun (step s' (.accCancel ch)) ch
            (s'', match s''.apc ch with
-             | some (.done none) => "sent:either"
+             | some (.done (some c)) => s!"sent:conn:{c}"
+             | some (.done none) => "sent:cancelled"
              | _ => "?")
          | _ => (s', "sent:lost"))
       | _ => (s', "full")
